@@ -333,6 +333,9 @@ def h_getattr(I, st, fv, args, kwargs, ctx):
 def h_setattr(I, st, fv, args, kwargs, ctx):
     x, n, v = args
     if not isinstance(n, Conc):
+        h = I.lib.get("$setattr_symbolic")
+        if h is not None:
+            return h(I, st, x, n, v, ctx)
         raise OutOfReach("setattr with symbolic name")
     return I.setattr(st, x, n.py, v, ctx)
 
